@@ -58,13 +58,20 @@ func vpH_C18_log_step() {
 		truth[p] = !truth[p]
 	} else {
 		ctx, cancel := context.WithCancel(context.Background())
+		if vpBool("consumer_context_already_cancelled") {
+			cancel()
+		}
+		ctxDone := ctx.Err() != nil
 		empty := len(h.evtLog) == 0
 		var evt PeerEvent
 		var err error
 		blocked := vpBlocks(func() { evt, err = h.NextPeerEvent(ctx) })
-		vpAssert(blocked == empty, "NextPeerEvent blocks exactly when no event is pending")
-		if !blocked {
-			vpAssert(err == nil, "a pending event is returned without error")
+		vpAssert(blocked == (empty && !ctxDone), "NextPeerEvent blocks exactly when no event is pending (and its context is live)")
+		if !blocked && empty {
+			vpAssert(err != nil, "with nothing pending a cancelled NextPeerEvent returns the context error")
+		}
+		if !blocked && !empty {
+			vpAssert(err == nil, "a pending event is returned without error: an event taken out of the log is never half-delivered")
 			vpAssert((evt.Type == PeerJoin) == !cons[evt.Peer], "per peer the returned events strictly alternate, starting with join")
 			cons[evt.Peer] = evt.Type == PeerJoin
 		}
@@ -88,9 +95,9 @@ func vpH_C18_log_step() {
 // hist: K symbolic events from the empty handler; at quiescence after draining, folding the returned events gives
 // exactly the current member set.
 func vpH_C18_hist() {
-	K := 5
+	K := 4
 	if vpTier() > 0 {
-		K = 7
+		K = 6
 	}
 	h := vpNewEvtHandler()
 	peers := []peer.ID{"p0", "p1"}
